@@ -293,6 +293,10 @@ fn root_sets() -> Vec<Vec<C>> {
         // roots close to the origin: a start of tiny norm (the origin itself) is then a start near the root
         vec![c(0.04, 0.0), c(1.0, 0.0), c(-1.2, 0.0)],
         vec![c(0.03, 0.02), c(1.0, 1.0), c(-1.0, -0.5)],
+        // eight roots a quarter apart: |p'| at the inner roots is about 5e-3, so a residual of the size of the tolerance
+        // is reached far from the root (a stopping rule that looks at |p(x)| instead of the update stops there)
+        (0..8).map(|k| c(-0.875 + 0.25 * k as f64, 0.0)).collect(),
+        (0..6).map(|k| c(0.1 + 0.3 * k as f64, 0.2 - 0.1 * k as f64)).collect(),
     ]
 }
 /// ascending coefficients of lead * prod (x - z_j)
@@ -340,7 +344,7 @@ impl Check for PolyNewton {
                             if dir == 4 && frac != 0.8 {
                                 continue;
                             }
-                            for &tol in &t.pick(vec![1e-4, 1e-12], vec![1e-4, 1e-8, 1e-12]) {
+                            for &tol in &t.pick(vec![1e-3, 1e-12], vec![1e-3, 1e-4, 1e-8, 1e-12]) {
                                 v.push(PolyPt { method: method.to_string(), set, which_root, frac, dir, tol });
                             }
                         }
